@@ -509,12 +509,16 @@ mod verif_nx_pipeline {
                         lines.push("end.".into());
                         let expected = format!("{}\n", lines.join("\n"));
                         let flat: String = lines.iter().map(|l| l.trim()).collect::<Vec<_>>().join(" ");
+                        // compared per line: indentation and first token (what C05 states), not the spacing inside the line
+                        let shape = |t: &str| -> Vec<(usize, String)> {
+                            t.lines().map(|l| (l.len() - l.trim_start().len(), l.split_whitespace().next().unwrap_or("").to_ascii_lowercase())).collect()
+                        };
                         let (out, _) = fmt(cfg, &flat, Vec::new());
-                        assert!(out == expected, "OB pipeline/block_structure: every statement / declaration starts its own line one level deeper than its block opener; closers at the opener's level; begin_style decides where `begin` goes\n input={:?}\n output=\n{}\n expected=\n{}", flat, out, expected);
+                        assert!(shape(&out) == shape(&expected), "OB pipeline/block_structure: every statement / declaration starts its own line one level deeper than its block opener; closers at the opener's level; begin_style decides where `begin` goes\n input={:?}\n output=\n{}\n expected (indentation and first token per line)=\n{}", flat, out, expected);
                         // the same tokens laid out one per line give the same result (C06)
                         let tall: String = flat.split(' ').collect::<Vec<_>>().join("\n");
                         let (out2, _) = fmt(cfg, &tall, Vec::new());
-                        assert!(out2 == expected, "OB pipeline/layout_independent: the result does not depend on the input's line wrapping\n input={:?}\n output=\n{}\n expected=\n{}", tall, out2, expected);
+                        assert!(out2 == out, "OB pipeline/layout_independent: the result does not depend on the input's line wrapping\n input={:?}\n output=\n{}\n from one line=\n{}", tall, out2, out);
                         n += 1;
                     }
                 }
